@@ -32,6 +32,10 @@ TRUSTED = [
     'thread part: interleaving model at next() granularity (theorems) and line granularity (prepare race, settrace '
     'scheduler); byte-code level preemption, the GIL and atomicity of built-in container operations are assumed',
     'pickle, CPython generators, list iterators, dict ordering: exercised, not modelled',
+    'state outside the template object and the contexts (globals dicts of eval/exec read by nested scopes: generator '
+    'expressions, lambdas, functions of <?python ?> blocks; closure state of path tests of multi-step / positional '
+    'py:match paths): not modelled (the step model answers unmodelled / other), judged by the oracle alone '
+    '(interleaved, threaded and repeated renders against the render alone)',
 ]
 ASSUMPTIONS = [
     'context data objects are not shared between renders (each render gets fresh objects built from the same spec)',
@@ -1366,6 +1370,8 @@ def compare_model(cases, res, variant, stream='steps'):
                 # the case left the modelled fragment: what the real step did to shared state (a template
                 # prepared by an include inside matched content, ...) is not in the model from here on
                 res.count('model:unmodelled')
+                for ft in c.get('lazy') or ():
+                    res.count('model:unmodelled:' + ft)
                 break
             res.streams[stream] = res.streams.get(stream, 0) + 1
             if act[0] == 's' and isinstance(m, list) and len(m) > 2 and isinstance(m[2], list) and m[2] and m[2][0] == 'err':
@@ -1385,10 +1391,15 @@ def compare_model(cases, res, variant, stream='steps'):
 
 
 def gen_model_case(rng):
-    t = G.rand_template(rng, modelled=True)
+    # now and then a lazily evaluated nested scope (generator expression, lambda under map(), generator function
+    # of a code block): the step model has no counterpart and must say so (`unmodelled`, counted), the oracle
+    # judges these cases
+    lazy = rng.random() < 0.05
+    t = G.rand_template(rng, modelled=True, focus='lazy' if lazy else None)
     tspec = {'src': t['src'], 'files': t['files'], 'translator': t['translator'], 'auto_reload': True}
     k = rng.choice([1, 2, 2, 3])
-    datas = [G.rand_data(rng, True, fail_bias=0.15 if rng.random() < 0.3 else 0.0) for _ in range(k)]
+    datas = [G.healthy_data(rng) if lazy else G.rand_data(rng, True, fail_bias=0.15 if rng.random() < 0.3 else 0.0)
+             for _ in range(k)]
     acts = []
     pre = rng.random()
     if pre < 0.3:
@@ -1399,32 +1410,51 @@ def gen_model_case(rng):
         acts.append(['s', i])
         if rng.random() < 0.06:
             acts.append([rng.choice(['x', 'a', 'p', 'r'])])
-    return {'kind': 'model', 'tmpl': tspec, 'data': datas, 'actions': acts}, t['features']
+    case = {'kind': 'model', 'tmpl': tspec, 'data': datas, 'actions': acts}
+    if lazy:
+        case['lazy'] = [f for f in t['features'] if f in G.LAZY_FEATURES]
+    return case, t['features']
 
 
 # --------------------------------------------------------------------------
 # generation + shards
 
 def gen_case(rng, kind, modelled=False):
-    t = G.rand_template(rng, modelled)
+    focus = None if modelled else 'auto'
+    t = G.rand_template(rng, modelled, focus)
     while kind == 'threads' and t['files']:
         # the loader serialises loads with an RLock; the line scheduler would park a thread inside it
-        t = G.rand_template(rng, modelled)
+        t = G.rand_template(rng, modelled, focus)
+    t0 = t
     t = {'src': t['src'], 'files': t['files'], 'translator': t['translator'], 'auto_reload': t['auto_reload']}, t['features']
     tspec, feats = t
+    focus = t0['focus']
+
+    def data(**kw):
+        # with a construct in focus the renders must get to it and past it: healthy data (one data set may still fail)
+        return G.healthy_data(rng) if focus and rng.random() < 0.85 else G.rand_data(rng, modelled, **kw)
     if kind == 'seq':
         nd = rng.choice([1, 2, 2, 3])
-        datas = [G.rand_data(rng, modelled) for _ in range(nd - 1)] + [G.rand_data(rng, modelled, fail_bias=0.25)]
+        datas = [data() for _ in range(nd - 1)] + [data(fail_bias=0.25)]
         return {'kind': 'seq', 'tmpl': tspec, 'data': datas, 'ops': G.rand_ops(rng, nd, rng.choice([3, 4, 5, 6]))}, feats
     if kind == 'interleave':
         k = rng.choice([2, 2, 3])
-        datas = [G.rand_data(rng, modelled, fail_bias=0.25 if rng.random() < 0.3 else 0.0) for _ in range(k)]
-        return {'kind': 'interleave', 'tmpl': tspec, 'data': datas,
-                'schedule': G.rand_schedule(rng, k, rng.choice([10, 30, 60, 120]))}, feats
+        datas = [data(fail_bias=0.25 if rng.random() < 0.3 else 0.0) for _ in range(k)]
+        if focus:
+            sched = G.rand_schedule(rng, k, rng.choice([60, 120]), lockstep=0.5)
+        else:
+            sched = G.rand_schedule(rng, k, rng.choice([10, 30, 60, 120]))
+        return {'kind': 'interleave', 'tmpl': tspec, 'data': datas, 'schedule': sched}, feats
     if kind == 'threads':
-        datas = [G.rand_data(rng, modelled) for _ in range(2)]
-        return {'kind': 'threads', 'tmpl': tspec, 'data': datas, 'prepared': True,
-                'schedule': G.rand_schedule(rng, 2, rng.choice([20, 60, 200]))}, feats
+        datas = [data() for _ in range(2)]
+        if focus:
+            # long enough for both threads to be inside the construct at the same time (a line at a time)
+            sched = []
+            while len(sched) < 3000:
+                sched.extend([rng.randrange(2)] * rng.choice([1, 3, 10, 40, 150]))
+        else:
+            sched = G.rand_schedule(rng, 2, rng.choice([20, 60, 200]))
+        return {'kind': 'threads', 'tmpl': tspec, 'data': datas, 'prepared': True, 'schedule': sched}, feats
     raise ValueError(kind)
 
 
@@ -1520,6 +1550,9 @@ def shard(arg):
         res.count('kind:' + kind)
         for ft in feats:
             res.count('feature:' + ft)
+            if ft in G.LAZY_FEATURES or ft == 'match-stateful':
+                # the constructs whose state outlives one next() outside the context: per oracle kind
+                res.count('%s:%s' % (ft, kind))
         try:
             with watchdog(120):
                 if kind == 'seq':
